@@ -301,9 +301,10 @@ func (pool *BlockPool) SetPeerRange(peerID p2p.ID, base int64, height int64) {
 		pool.peers[peerID] = peer
 	}
 
-	if height > pool.maxPeerHeight {
-		pool.maxPeerHeight = height
-	}
+	// A peer may report a lower height than it did before: recompute the
+	// maximum over the peers rather than only ever raising it (a stale maximum
+	// keeps IsCaughtUp false for good).
+	pool.updateMaxPeerHeight()
 }
 
 // RemovePeer removes the peer with peerID from the pool. If there's no peer
